@@ -303,7 +303,7 @@ inline bool makeSource(XEnv& env, const std::string& form, const std::string& do
             if (h.status != 0) { h.err = env.T->getLastError(); h.ps = nullptr; h.owner = nullptr; }
         } else if (form == "wrapper" || form == "wrapper-lazy") {
             h.domParser.reset(new xercesc::XercesDOMParser(nullptr, &mm)); QuietErrorHandler eh;
-            h.domParser->setDoNamespaces(true); h.domParser->setErrorHandler(&eh); h.domParser->setValidationScheme(xercesc::XercesDOMParser::Val_Never); h.domParser->setCreateEntityReferenceNodes(false);
+            h.domParser->setDoNamespaces(true); h.domParser->setErrorHandler(&eh); h.domParser->setEntityResolver(env.resolver.get());      /* the external DTD subset comes from the simulated file system, as for the library's own parsers */ h.domParser->setValidationScheme(xercesc::XercesDOMParser::Val_Never); h.domParser->setCreateEntityReferenceNodes(false);
             SimInputSource src(seen, f, sysId, &env.fs.stats);
             // this is the caller's own use of Xerces: what its DOM parser throws (a DOMException for version="1,0") is a failed parse of the caller, not of Xalan
             try { h.domParser->parse(src); } catch (const xercesc::DOMException& e) { eh.failed = true; eh.msg = "DOMException " + narrowU8(e.getMessage()); }
@@ -316,7 +316,7 @@ inline bool makeSource(XEnv& env, const std::string& form, const std::string& do
             }
         } else if (form == "stwrapper") {
             h.stLiaison.reset(new XalanSourceTreeParserLiaison(mm)); h.stSupport.reset(new XalanSourceTreeDOMSupport(*h.stLiaison));
-            QuietErrorHandler eh; h.stLiaison->setErrorHandler(&eh);
+            QuietErrorHandler eh; h.stLiaison->setErrorHandler(&eh); h.stLiaison->setEntityResolver(env.resolver.get());
             SimInputSource src(seen, f, sysId, &env.fs.stats);
             XalanDocument* d = h.stLiaison->parseXMLStream(src, xs(sysId, mm));
             XalanSourceTreeDocument* sd = d ? h.stLiaison->mapDocument(d) : nullptr;
@@ -329,8 +329,8 @@ inline bool makeSource(XEnv& env, const std::string& form, const std::string& do
                 std::unique_ptr<xercesc::SAX2XMLReader> rd(xercesc::XMLReaderFactory::createXMLReader());
                 BuilderFeeder bf(h.builder->getContentHandler(), h.builder->getLexicalHandler());
                 rd->setFeature(xercesc::XMLUni::fgSAX2CoreNameSpaces, true); rd->setFeature(xercesc::XMLUni::fgSAX2CoreNameSpacePrefixes, true);
-                rd->setFeature(xercesc::XMLUni::fgXercesLoadExternalDTD, false); rd->setFeature(xercesc::XMLUni::fgSAX2CoreValidation, false); rd->setFeature(xercesc::XMLUni::fgXercesDynamic, false);
-                rd->setContentHandler(&bf); rd->setLexicalHandler(&bf); rd->setErrorHandler(&bf); rd->setDTDHandler(h.builder->getDTDHandler());   // unparsed entities reach the builder through its DTD handler
+                rd->setFeature(xercesc::XMLUni::fgXercesLoadExternalDTD, true); rd->setFeature(xercesc::XMLUni::fgSAX2CoreValidation, false); rd->setFeature(xercesc::XMLUni::fgXercesDynamic, false);
+                rd->setEntityResolver(env.resolver.get()); rd->setContentHandler(&bf); rd->setLexicalHandler(&bf); rd->setErrorHandler(&bf); rd->setDTDHandler(h.builder->getDTDHandler());   // unparsed entities reach the builder through its DTD handler
                 SimInputSource src(seen, f, sysId, &env.fs.stats);
                 rd->parse(src);
                 h.ps = h.builder;
@@ -363,7 +363,8 @@ inline XformOut runTransform(XEnv& env, const XReq& rq, SimSink& sink, const Xal
         if (!preparsed) {
             if (rq.srcForm == "stream") { dstream.reset(new SimIStream(docSeen, rq.docFault, &env.fs.stats)); din.reset(new XSLTInputSource(dstream.get(), mm)); din->setSystemId(xs(rq.docSysId.empty() ? docId : rq.docSysId, mm).c_str()); }
             else if (rq.srcForm == "file") { std::string p = writeScratch(env, "doc.xml", docSeen); din.reset(new XSLTInputSource(p.c_str(), mm));
-                if (rq.ssForm == "pi") { writeScratch(env, "ss.xsl", xslSeen); for (auto& kv : env.fs.files) if (kv.first != "ss.xsl" && kv.first != "doc.xml") writeScratch(env, kv.first, kv.second); } }
+                for (auto& kv : env.fs.files) if (kv.first != "ss.xsl" && kv.first != "doc.xml") writeScratch(env, kv.first, kv.second);      // what the document refers to (an external DTD subset) lies next to it
+                if (rq.ssForm == "pi") writeScratch(env, "ss.xsl", xslSeen); }
             else { dsrc.reset(new SimInputSource(docSeen, rq.docFault, rq.docSysId.empty() ? docId : rq.docSysId, &env.fs.stats)); }
         }
         bool haveSS = true;
